@@ -22,6 +22,12 @@ ENGINES = [
      "serves_properties": ["C02", "C03", "C04"],
      "kind_free_text": "TLA+ small-step model of the evaluator (control stack, scope chain, output); TLC runs every program of the bounded families checking invariants in every state and emits expected outputs replayed through EvaluateString"},
 ]
+ENGINES += [
+    {"name": "tla-text", "path": "spec/MC_Text.tla, harness/fam_render.go", "serves_properties": ["C10", "C13"],
+     "kind_free_text": "TLA+ specification of escaping (Escape/Unescape lemmas) and of sources assembled from segments with known newline counts; TLC enumerates literals x contexts and faults x preambles x placements; replayed through EvaluateString"},
+    {"name": "tla-builtins", "path": "spec/TwBuiltins.tla, spec/MC_Builtins.tla, harness/fam_render.go", "serves_properties": ["C11"],
+     "kind_free_text": "TLA+ contracts of the built-in functions over character sequences, arrays, anchored ints and dyadic floats; TLC enumerates each built-in's small domain and checks lemmas; replayed through EvaluateString"},
+]
 T_REPLAY = "explicit TLA+ specification checked by TLC; TLC-generated behaviours replayed into the real code"
 CLAIMED = {
     "C01": {"engine": "tla-expr", "technique": T_REPLAY,
@@ -32,6 +38,14 @@ CLAIMED = {
             "text": "TLC runs every loop program of the bounded families (each/for, jumps at every body position and under nested @if, nesting, @else bodies, non-array headers) on the evaluator model, checking LoopMeta / ScopeBalance / OutMonotone in every state, and the harness requires the same output from EvaluateString."},
     "C04": {"engine": "tla-eval", "technique": T_REPLAY,
             "text": "TLC runs assignment/read sequences placed around and inside every block skeleton with every data map of the family, checking TypeStable / LoopReserved / ScopeBalance in every state; reads print, so the visible environment is observable and the harness requires the model's output or error from EvaluateString."},
+    "C09": {"engine": "tla-expr", "technique": T_REPLAY,
+            "text": "The specification's operators are total (value, demanded error, or unspecified): TLC evaluates the complete kind-confusion matrix (11 binary operators x 16 x 16 value kinds, prefix/postfix/index/member/ternary forms over every kind, raw templates with absent loop clauses and misplaced directives) and the harness replays every case under recover() and a watchdog: no panic, no hang, the predicted value or error where a property fixes it, and a line >= 1 on every evaluation error. Built-in argument domains are covered by C11's families and nil pointers / unsupported data by C12's."},
+    "C10": {"engine": "tla-text", "technique": T_REPLAY,
+            "text": "TLC checks the escaping lemmas (no raw angle bracket, every & is an entity, quotes kept, Unescape(Escape(l)) = l) for every literal over the 14-character alphabet one character beyond the replayed bound, and generates every literal x quote style x 14 usage contexts (raw() in four of them); the harness requires exactly the escaped, or the original, text from EvaluateString."},
+    "C11": {"engine": "tla-builtins", "technique": T_REPLAY,
+            "text": "TLC enumerates every built-in over its whole small domain (see evidence rule), checks contract lemmas, and the harness requires the contract value (or membership for rand/shuffle, or an error for wrong/missing arguments), the unchanged receiver, valid UTF-8 output, and that custom functions registered under built-in names do not take precedence."},
+    "C13": {"engine": "tla-text", "technique": T_REPLAY,
+            "text": "Sources are assembled in TLA+ from multi-line segments with known newline counts, so the line of the injected single-line fault is ground truth; TLC enumerates faults x preamble sequences x placements (top level, @if, @else, @each, @for) and the harness requires an error on exactly that line from EvaluateString. File paths are covered with the template-tree families (C06/C07/C18)."},
     "C05": {"engine": "tla-lexer", "technique": T_REPLAY,
             "text": "TLC model-checks the byte-level lexer model over every byte string up to the bound over three adversarial alphabets and every lexeme sequence up to the bound (Passthrough, Tiling, NoPanic, Progress, Terminates) and prints one record per input; the harness replays every record through EvaluateString: where the model classifies the input as text/escapes/comments/{{ INT }} the output must equal the model's rendering."},
     "C08": {"engine": "tla-lexer", "technique": T_REPLAY,
